@@ -73,6 +73,14 @@ def multisets() -> List[Tuple[str, ...]]:
         for s1, s2 in ((0, 0), (1, 2), (a, a + b)):
             out.append((sk(a), sk(b, start=s1), sk(c, "'a'", start=s2)))
             out.append((f"[{sk(a)}]", f"[{sk(b, start=s1)}]", f"[{sk(c, start=s2)}]"))
+    # second-level merges: lists of dicts (already merged TypedDicts with optional keys) merged again
+    for a, b, c in itertools.product([1, 2], [1, 2], [1, 2]):
+        for s1, s2, s3 in ((1, 2, 3), (a, a + b, a + b + c), (0, 2, 2), (1, 0, 1)):
+            for vb in ("0", "'a'"):
+                l1 = f"[{sk(a)}, {sk(b, vb, start=s1)}]"
+                l2 = f"[{sk(c, start=s2)}, {sk(1, vb, start=s3)}]"
+                l3 = f"[{sk(c, start=s2)}]"
+                out += [(l1, l2), (l1, l3), (f"[{l1}, {l2}]",), (f"[{l1}, {l3}]",), (f"({l1},)", f"({l2},)"), (l1, l3, f"[{sk(1, start=s3 + 3)}]")]
     out += [(sk(2), "{1: 0}"), (sk(2), "{}"), (sk(2), "0"), (f"[{sk(2)}]", "[0]"), (sk(2), "{'k0': 0, 1: 0}"), ("{}", "{}"), ("{}",)]
     seen = set()
     res = []
